@@ -15,7 +15,7 @@ CHECKS = {
    text='Every operator (781 instances incl. number variants), compound assignment, constructor (316) and member relation (162) x 3 numeric types is found by SFINAE / header scan and enumerated; operands and an independent rescaling of the base units are generated; f(s(A)a, s(B)b) must equal s(C) f(a,b) with s from the declared dimension sets (exact, 2 ulp allowance); long double operands also beyond the range of double; an inf / NaN / 0 result from finite operands is re-examined in far-rescaled units (a representable result that the library loses is a violation). Type level: result dimensions = sum/difference/equal, exhaustive.',
    note='Trusted: the declared dimension sets (validated against the unit symbols by C06). Operand windows keep every intermediate in the normal range.', ref='5 C03'),
  'C04': dict(engine='rel', technique=PBT + ': reference model (IEEE operation on stored values), stateful histories of compound assignments, differential constructor/operator twins',
-   text='Every operator instance is compared bit for bit with the IEEE operation of the same numeric type on the stored components in written order; contractions against the textbook formula; compound assignments against pure operators; histories of 1..24 interleaved +=,-=,*=,/= against a plain array model and the pure-operator chain after every step; constructors against their operator twins; std:: overloads of dimensionless scalars against std:: on the stored number.',
+   text='Every operator instance is compared bit for bit with the IEEE operation of the same numeric type on the stored components in written order; contractions against the textbook formula; compound assignments against pure operators; histories of 1..24 interleaved +=,-=,*=,/= (also with the object as its own operand: x += x, x -= x, self assignment, move from a copy) against a plain array model and the pure-operator chain after every step; operands whose exact sum / product lies beside a rounding tie (double rounding through a wider type); constructors against their operator twins; std:: overloads of dimensionless scalars against std:: on the stored number.',
    note='Trusted: the harness is compiled without -ffast-math so that engine and library arithmetic are the same IEEE operations.', ref='5 C04'),
  'C05': dict(engine='rel', technique=PBT + ': round trip relation o inverse relation with measured conditioning',
    text='Inverse pairs are derived from the declared signatures (constructors/members with 1-4 arguments, operator pairs by algebra, planar embedding): about 2000 pairs per numeric type. A(C(a,b..),b..) must return a within 4(1+kappa) ulp, kappa measured per case by one-ulp perturbations; the planar embedding is bit-exact. A non-finite forward or inverse result from finite operands is re-examined in rescaled base units (dimensional homogeneity as oracle): if the result is representable there, the library lost it.',
@@ -27,8 +27,8 @@ CHECKS = {
    text='All 4 systems x 37 unit types: the consistent unit\'s exact SI magnitude (Fractions) equals the product of the system base units (read from the system\'s own abbreviation) raised to the type\'s dimension exponents; the standard system gives the standard units; RelatedUnitSystem for all 514 units equals the stated function of the forward table. Value level: for every unit type x numeric type x system a generated value in the consistent unit converts to/from the standard unit by exactly the product of the base units (4 ulp). Histories: 3..14 interleaved RelatedUnitSystem / ConsistentUnit lookups on one or two unit types (repeats, hit after miss) return what a single lookup in a fresh process returns.',
    note='Trusted: the unit lexicon. The table space is finite and is enumerated completely; the value quantifier is sampled.', ref='5 C07 and 0.2'),
  'C08': dict(engine='symx+enums+fuzz', technique='exhaustive enumeration against the lexicon + ' + PBT + ' string mutation + libFuzzer on ParseEnumeration',
-   text='Exhaustive: every enumerator of the 39 enum declarations has a unique abbreviation, streams as it, parses back, has both conversion rows; each of ~2050 accepted spellings denotes (lexicon, exact) the magnitude of the enumerator it parses to. Generated: single-edit mutations of spellings, random strings and (thorough) coverage-guided bytes must parse to nothing unless they are keys.',
-   note='Trusted: the unit lexicon; ambiguous atoms (lb, C, NM, as ...) accept any alternative of matching dimensions.', ref='5 C08'),
+   text='Exhaustive: every enumerator of the 39 enum declarations has a unique abbreviation, streams as it, parses back, has both conversion rows, and what the run-time conversion does with 0 and 1 in the unit is the affine map its abbreviation denotes; each of ~2050 accepted spellings denotes (lexicon, exact) the magnitude of the enumerator it parses to. Generated: single-edit mutations of spellings, random strings and (thorough) coverage-guided bytes must parse to nothing unless they are keys.',
+   note='Trusted: the unit lexicon (it also knows the SI-brochure / SP 811 units the library lacks, so that an added unit is decidable); ambiguous atoms (lb, C, NM, as ...) accept any alternative of matching dimensions.', ref='5 C08'),
  'C09': dict(engine='math', technique=PBT + ' + exhaustive integer grids against index-notation references',
    text='71 operations of the four vector/tensor types x 3 numeric types: exhaustive small-integer grids (bit-exact), random integers in [-64,64] (bit-exact), reals over +-40 binades (4 ulp of the sum of |terms|), inverse presence = exact determinant non-zero, A*A^-1 = I within 16 cond eps, symmetric/planar types against their embeddings (incl. presence of the inverse for exactly singular real tensors); in-place scaling by a reference to an own component.',
    note='Trusted: textbook formulas evaluated in __float128.', ref='5 C09'),
@@ -48,22 +48,22 @@ CHECKS = {
    text='All 92 quantity types, the 4 vector/tensor types, Dimensions and the 3 model classes x 3 numeric types: six operators equal the lexicographic IEEE comparison of the stored components on triples with forced ties, +-0, +-inf; equal => equal hash; collections in ordered and unordered containers.',
    note='No NaN components.', ref='5 C14'),
  'C15': dict(engine='qty', technique=PBT + ' + exhaustive enumeration of all 2^32 float bit patterns (thorough); round trip print -> parse; reference formatter; strict JSON parser',
-   text='Number level: thorough = every float bit pattern; quick = every 997th + boundary neighbourhoods + stratified random doubles/long doubles: notation, max_digits10+1 significant digits, bit-exact parse-back. Composite level: Print/JSON/XML/YAML/<< of every quantity type and unit equal a reference formatter; JSON accepted by an RFC 8259 parser with bit-exact fields; the four vector/tensor types likewise.',
+   text='Number level: thorough = every float bit pattern; quick = every 997th + boundary neighbourhoods + stratified random doubles/long doubles: notation, max_digits10+1 significant digits, bit-exact parse-back. Composite level: Print/JSON/XML/YAML/<< of every quantity type and unit equal a reference formatter; JSON accepted by an RFC 8259 parser with bit-exact fields; the four vector/tensor types likewise. A failure that depends on earlier calls in the same process (a cached string, a function-local static) is confirmed by repeating its deterministic engine run.',
    note='Finite normal numbers.', ref='5 C15'),
  'C16': dict(engine='qty+math', technique=PBT + ': reference model (static_cast per slot), round trip widen -> narrow',
-   text='92 quantity types + 4 math types x 6 ordered numeric-type pairs x {converting constructor, converting assignment}: slot i has the bits of static_cast<T2>(slot i); widen-narrow identity; directions within 2 ulp (coarser type) of the cast and unit length.',
+   text='92 quantity types + 4 math types x 6 ordered numeric-type pairs x {converting constructor, converting assignment}: slot i has the bits of static_cast<T2>(slot i), also for components on / beside rounding ties of the target type (double rounding) and for assignments into a target that already holds nearly the same value; widen-narrow identity; directions within 2 ulp (coarser type) of the cast and unit length.',
    note='Narrowing only inside the finite range of the narrower type (otherwise UB in C++).', ref='5 C16'),
  'C17': dict(engine='qty', technique='exhaustive static facts reported at run time + ' + PBT + ' stateful mutator histories against an array model',
-   text='All 276 instantiations: sizeof = n*sizeof(T), alignof, trivially copyable, standard layout, not polymorphic, Zero() = +0; memcpy of raw number arrays over quantity arrays; histories of SetValue/MutableValue/Mutable_c/Set_c/copy/memcpy against a plain array, bit for bit.',
+   text='All 276 instantiations: sizeof = n*sizeof(T), alignof, trivially copyable, standard layout, not polymorphic, Zero() = +0; memcpy of raw number arrays over quantity arrays; histories of SetValue/MutableValue/Mutable_c/Set_c/copy/move/memcpy (including steps that only flip the signs of zeros) against a plain array, bit for bit.',
    note='-', ref='5 C17'),
  'C18': dict(engine='rel', technique=PBT + ': fixed table of textbook formulas (__float128) looked up by name in the relation registry',
    text='83 named definitional relations x 3 numeric types (dynamic/total/static pressure, sound speed x3, Mach, Reynolds and Prandtl in every solved form, gamma, R, thermal diffusivity, kinematic viscosity, period, strain and strain rate, thermal strains, von Mises, traction, -p I): within 4 ulp (sums: of the sum of |terms|).',
    note='Rows absent from the tree are listed in the evidence, not failed.', ref='5 C18'),
  'C19': dict(engine='progs', technique='generated programs (seeded grammar-based generator) with namespace-scope probes, differential before-main vs in-main, two compilers x two optimisation levels',
-   text='Small multi-TU programs with namespace-scope probes over every table-backed facility are generated, built with g++ and clang++ at -O0 and -O2, and every value computed before main() is compared with the same expression inside main().',
+   text='Small multi-TU programs with namespace-scope probes over every table-backed facility are generated - plus enumerated sweep programs: every table facility x every unit type, every spelling (and separator variant) of the unit-system and model-type enumerations, as ordinary and as inline user objects - built with g++ and clang++ at -O0 and -O2, and every value computed before main() is compared with the same expression inside main().',
    note='Explores the initialisation orders the two installed compilers emit; the GCC conversion-dispatch defect is a listed known finding.', ref='5 C19'),
  'C20': dict(engine='san+fuzz', technique='the generators of all other properties re-run under ASan+UBSan+libstdc++ assertions; libFuzzer with differential oracles on the two parsers',
-   text='Every rapidcheck property is re-run in a sanitizer build (address, undefined incl. enum/overflow/bounds, _GLIBCXX_ASSERTIONS) with any exception other than bad_alloc recorded; ParseNumber<float|double|long double> and ParseEnumeration<E> (39 types) are fuzzed on arbitrary bytes against strtof/strtod/strtold and the key sets; remaining public members (Dimensions serialisations, whole-array accessors/mutators of the math types) are swept against simple models; valgrind memcheck pass for uninitialised reads.',
+   text='Every library table is walked and every rapidcheck property is re-run in a sanitizer build (address, undefined incl. enum/overflow/bounds, _GLIBCXX_ASSERTIONS) with any exception other than bad_alloc recorded; ParseNumber<float|double|long double> and ParseEnumeration<E> (39 types) are fuzzed on arbitrary bytes against strtof/strtod/strtold and the key sets; remaining public members (Dimensions serialisations, whole-array accessors/mutators of the math types) are swept against simple models; valgrind memcheck pass for uninitialised reads.',
    note='Bounded by what ASan/UBSan/libstdc++ assertions can observe; MSan is not usable here.', ref='5 C20'),
 }
 
